@@ -158,6 +158,11 @@ def observe(req: Any, rb: bytes) -> str:
         return f"ERROR:{type(e).__name__}"
     if r.trigger_request is not req:
         return "ERROR:trigger_request-not-set"
+    try:
+        if r.pdu != rb:  # what the caller (and the scan database) gets as "the reply" must be the bytes that were accepted
+            return "ERROR:accepted-reply-re-encodes-differently"
+    except Exception as e:  # noqa: BLE001
+        return f"ERROR:accepted-reply-pdu-raises-{type(e).__name__}"
     return ACCEPT
 
 
